@@ -551,3 +551,7 @@ for _p, _t in {
 ob("fen_side_key_contract", "chess::verif_chess::fen::fen_side_key_contract", ["C04", "C17"],
    "slice verif_fen_side_key: the importer XORs the published side key into the hash exactly when Black is to move", _F17, timeout=300)
 OB_SLICES["fen_side_key_contract"] = ["verif_fen_side_key"]
+ob("fen_board_loop_one_piece", "chess::verif_chess::fen::fen_board_loop_one_piece", ["C11", "C20"],
+   "slice verif_fen_board_loop (loop header included) on boards with one piece of any kind on any square: placement field == rank texts from rank 8 down to rank 1",
+   _F11, tier="thorough", timeout=5400, complete=False, bounded_note="board restricted to one piece; per-rank contents are covered by fen_rank_*")
+OB_SLICES["fen_board_loop_one_piece"] = ["verif_fen_board_loop"]
